@@ -712,6 +712,57 @@ func runC18(c *Ctx) {
 			if cc.users && cc.hadOld && cc.outcome == "missing" {
 				c.Count("restart-fell-back-to-default-admin")
 			}
+			// the server comes back, the same edits are made again and flushed — with the dead
+			// process's temporary file possibly still lying around: the file must now be the new table
+			if (cc.hadOld && cc.outcome == "old") || (!cc.hadOld && cc.outcome == "missing") {
+				if _, err := os.Stat(file + ".tmp"); err == nil {
+					c.Count("stale-temp-present")
+				}
+				// either the same edits again, or edits that leave a much shorter table (the stale
+				// temporary file is then longer than what is written now)
+				again := cc.h2
+				if i%2 == 1 {
+					again = nil
+					for _, o := range append(append([]op{}, cc.h1...), cc.h2...) {
+						if o.kind == 's' {
+							again = append(again, op{kind: 'd', key: o.key})
+						}
+					}
+					if cc.users {
+						again = append(again, op{kind: 'd', key: "admin"}, op{kind: 's', key: "z", pw: "p", upd: true})
+					} else {
+						again = append(again, op{kind: 's', key: "/z", url: "rtsp://h/z"})
+					}
+				}
+				// expected: the same edits on a clean copy of the surviving file
+				file4 := file + ".clean"
+				if cc.hadOld {
+					ioutil.WriteFile(file4, cc.old, 0644)
+				}
+				t4 := &table{users: cc.users, file: file4}
+				t4.restart()
+				for _, o := range again {
+					t4.apply(o)
+				}
+				t4.apply(op{kind: 'f'})
+				want, _ := ioutil.ReadFile(file4)
+				removeAll(file4)
+				t3.restart()
+				for _, o := range again {
+					t3.apply(o)
+				}
+				t3.apply(op{kind: 'f'})
+				got, _ := ioutil.ReadFile(file)
+				if bytes.Equal(got, want) {
+					c.Count("reflush-after-crash-ok")
+					if len(want) < len(cc.new) {
+						c.Count("reflush-shorter-than-stale-temp")
+					}
+				} else {
+					c.Find(Finding{Kind: "oracle", Class: "flush-after-crash-wrong", Case: line(cc.users, again), Impl: Hx(got), Spec: Hx(want),
+						Detail: fmt.Sprintf("after a crash at %q (partial=%d) the same history was replayed and flushed", cc.hook, cc.partial)})
+				}
+			}
 		}
 		cc.line = fmt.Sprintf("c18 crash %s %s %s %s", cc.hook, partStr(cc.partial), oldStr(cc.hadOld, cc.old), Hx(cc.new))
 		removeAll(file)
